@@ -134,8 +134,7 @@ def call_resolution(w, e, r, rest, args, kwargs, s):
         if not rest:
             return tables.apply_new(w, e, r[1], args, kwargs, s)
         if len(rest) == 1:
-            m = w.prog.find_method(r[1], rest[0])
-            return call_method_resolution(w, e, m, r[1], args, kwargs, s, r[1] + "." + rest[0])
+            return call_on_value(w, e, G("class:" + r[1]), rest[0], args, kwargs, s)
     if k == "builtin":
         if not rest:
             return tables.apply_builtin(w, e, r[1], args, kwargs, s)
@@ -187,6 +186,22 @@ def call_on_value(w, e, recv, mname, args, kwargs, s):
     if recv[0] == "global":
         q = recv[1]
         if q.startswith("class:"):
+            ci = w.prog.classes.get(q[6:])
+            if ci is not None and ci.is_namedtuple and mname == "_make" and len(args) == 1 and not kwargs:
+                # Record._make(iterable): the record of its items
+                src = args[0]
+                cands = [(s, "val", src)]
+                if isinstance(src, tuple) and len(src) == 3 and src[0] == "gen":
+                    cands = w._collect_exact(src, s, e) or cands
+                outs = []
+                for s2, k2, v2 in cands:
+                    if k2 != "val":
+                        outs.append((s2, k2, v2))
+                    elif isinstance(v2, tuple) and len(v2) == 4 and v2[0] == "lit" and v2[1] in ("tuple", "list") and len(v2[2]) == len(ci.nt_fields()):
+                        outs.append((s2, "val", ("nt", q[6:], tuple(v2[2]))))
+                    else:
+                        outs.extend(tables.apply_ext(w, e, "typing.NamedTuple._make", args, kwargs, s2))
+                return outs
             m = w.prog.find_method(q[6:], mname)
             return call_method_resolution(w, e, m, q[6:], args, kwargs, s, q[6:] + "." + mname)
         if q.startswith("ext:"):
